@@ -62,8 +62,8 @@ def k1(cx):
             continue
         tag = roles.impl_tag(cx, im)
         label = cx.label(fc)
-        gu = cx.graph(fu['key'])
-        gc = cx.graph(fc['key'])
+        gu = cx.graph(fu['key'], forward=True)
+        gc = cx.graph(fc['key'], forward=True)
         pu = _parts(gu, UNSUB_NAMES)
         pc = _parts(gc, IS_CLOSED_NAMES)
         parts = [p for p in pu if (tag, p) not in K1_EXEMPT_PARTS]
